@@ -94,3 +94,7 @@
        (ite ((_ is VList) b) (not (listClean (ls t) (ls b)))
             (and ((_ is VMap) b) (not (= (mlen (mc b)) 0))))
   (ite ((_ is VMap) b) (not (= (mlen (mc b)) 0)) ((_ is VList) b))))))
+; entries of a that do not occur in b (in a's order)
+(define-fun-rec keepNotIn ((a Lst) (b Lst)) Lst
+  (ite ((_ is LNil) a) LNil (ite (lmem (hd a) b) (keepNotIn (tl a) b) (LCons (hd a) (keepNotIn (tl a) b)))))
+(define-fun replaceMarker () Val (VMap (store emptyM "$replace" (VBool true))))
